@@ -40,3 +40,8 @@ Theorem c11_race_free : forall c, Inv c ->
      owns p1 = Some m -> (p2 = PushAdd k v \/ p2 = PushStoreTail k v) -> (m < k)%nat).
 Proof. exact synclist_race_free_inv. Qed.
 Print Assumptions c11_race_free.
+
+(* every state the correspondence run starts from satisfies the invariant (the premises above are satisfiable there) *)
+Theorem c11_sequential_states_invariant : forall npre n, Inv (seq_state npre n).
+Proof. exact seq_state_inv. Qed.
+Print Assumptions c11_sequential_states_invariant.
